@@ -3,7 +3,7 @@ import io
 
 import betterproto
 
-from .. import dyn, gen, msgev
+from .. import dyn, gen, hist, msgev
 from . import c02
 
 LEVEL = "model_checking"
@@ -34,7 +34,8 @@ def run(ctx):
     quick = ctx.tier == "quick"
     ctx.rule = ("len/bytes/dump/dump(SIZE_DELIMITED)/SerializeToString on (i) constructed Wide-family messages: every field x boundary value x "
                 "presence mode (incl. empty-but-present optional / oneof / nested members), pairs, random, and length-delimited payloads (strings, bytes, nested, packed, map entries, wrappers, 1/2/3-byte keys) swept across the 2**7k-1 length-prefix boundaries; (ii) messages obtained by decoding "
-                "the LegalEnc encodings (unknown fields, shadowed members, padded varints); non-trivial = non-empty encoding")
+                "the LegalEnc encodings (unknown fields, shadowed members, padded varints); (iii) histories of constructions, assignments, in-place "
+                "container / sub-message mutations, parses and copies with len read before bytes after every call; non-trivial = non-empty encoding")
     ctx.assumptions = ["the size theorem SpecSize = Len(SpecEncode) is model-checked on the spec (MC_Codec.SizeAgrees); the implementation's "
                        "len() is compared with the length of its own bytes(), as the statement says"]
     w = msgev.world()
@@ -60,6 +61,10 @@ def run(ctx):
     ctx.sample({"decoded_with_unknown": {"src": ev2[len(ev2) // 2]["case"]["src"], "len": ev2[len(ev2) // 2]["len"]}})
     slim = [{k: v for k, v in e.items() if k not in ("val", "obs", "b2")} for e in events]
     ctx.validate("Trace_Codec", slim, header={"schema": schema}, shard=4000)
+    # (iii) along histories: objects filled / changed in place (list.append, map[key] = v, m.sub.x = v on lazily created
+    # containers), interleaved with len / bytes calls -- after every call len (read first), dump and the delimited dump
+    # must agree with bytes (a size computed earlier, or presence flags the in-place change never touched, must not matter)
+    hist.run_histories(ctx, ["TRep", "TMapV", "TMapK", "TMix", "TOne", "TWkt", "Node", "TOpt"], 600 if quick else 20000, 10, "inplace", judge_len=True)
     ctx.validate("Trace_Codec", ev2, header={"schema": small}, shard=6000)
 
 
